@@ -525,7 +525,8 @@ func (e *Engine) installIntrinsics() {
 		return e.simplify(e.ts.mk(sortInt, "vrank", e.strTerm(a[0])), nil)
 	}
 	in["vGoID"] = func(fr *frame, a []Value) Value { return int64(fr.g.id) }
-	in["vDoc"] = func(fr *frame, a []Value) Value { return e.symbolicDoc(a[0].(string)) }
+	in["vDoc"] = func(fr *frame, a []Value) Value { return e.symbolicDoc(a[0].(string), "") }
+	in["vDocWithout"] = func(fr *frame, a []Value) Value { return e.symbolicDoc(a[0].(string), a[1].(string)) }
 	in["vTime"] = func(fr *frame, a []Value) Value {
 		ns := e.newInputIntK("h:int", "time:"+a[0].(string), 1, 1<<50)
 		var loc *Value
